@@ -6,8 +6,11 @@
 //             satisfy the upstream contract (Spec.v cb_ok / closed at every flush), with flush points
 //             after every callback, after batches, or only at the end.  The proto messages handed to
 //             EventSequencer.Callback are recorded per flush.
-// modes loop / graph (AsyncCalcGraph loop around the sequencer; whole calculation graph) are NOT implemented
-// (stubs.go); the shim for the loop (VerifNewLoop) is in place.
+// mode loop : the REAL AsyncCalcGraph select loop (flush throttling by the leaky bucket + in-sync forwarding) around
+//             the real sequencer and the real calculation graph, fed by hand over unbuffered channels; see loop.go.
+// mode panic: a contract-respecting prefix followed by ONE callback outside the contract; whether the real code
+//             reaches log.Panic is compared with the model's None; see loop.go.
+// (The whole calculation graph is driven by the C01 harness, which runs this property's oracle on its stream.)
 //
 // Each case is printed as one JSON line carrying the case as a Coq term of type Spec.case.
 package main
@@ -15,11 +18,14 @@ package main
 import (
 	"encoding/json"
 	"flag"
+	"io"
 	"net/netip"
 	"fmt"
 	"os"
 	"sort"
 	"strings"
+
+	"github.com/sirupsen/logrus"
 
 	"github.com/projectcalico/calico/felix/calc"
 	"github.com/projectcalico/calico/felix/config"
@@ -496,9 +502,10 @@ func (d *dummyConfig) RawValues() map[string]string                             
 func (d *dummyConfig) ToConfigUpdate() *proto.ConfigUpdate                       { return &proto.ConfigUpdate{} }
 
 func main() {
+	logrus.SetOutput(io.Discard) // log.Panic still panics; the text is not wanted
 	n := flag.Int("n", 100, "cases")
 	seed := flag.Uint64("seed", 1, "seed")
-	mode := flag.String("mode", "all", "seq | loop | graph | all")
+	mode := flag.String("mode", "all", "seq | loop | panic | all")
 	flag.Parse()
 	enc := json.NewEncoder(os.Stdout)
 	r := &rng{s: *seed}
@@ -507,11 +514,12 @@ func main() {
 		runSeq(r, *n, enc)
 	case "loop":
 		runLoop(r, *n, enc)
-	case "graph":
-		runGraph(r, *n, enc)
+	case "panic":
+		runPanic(r, *n, enc)
 	default:
-		runSeq(r, *n*6/10, enc)
-		runLoop(&rng{s: *seed + 1000003}, *n*2/10, enc)
-		runGraph(&rng{s: *seed + 2000003}, *n-*n*6/10-*n*2/10, enc)
+		nl, np := *n*27/100, *n*13/100
+		runSeq(r, *n-nl-np, enc)
+		runLoop(&rng{s: *seed + 1000003}, nl, enc)
+		runPanic(&rng{s: *seed + 2000003}, np, enc)
 	}
 }
